@@ -59,6 +59,7 @@ impl CacheError {
 
 //@include model.rs
 //@include prelude_store.rs
+//@include prelude_num.rs
 //@include model_resp.rs
 
 // ---- the Cache traits (declarations written here per R10; the default body of `get` comes from /repo) ----
@@ -179,6 +180,9 @@ impl MemoryStore {
         ms_inv(*old(self)), cas_room(old(self).cas_id.val()),
     ensures
         ms_inv(*final(self)) && final(self).timer == old(self).timer, // @ob C01 store.set.inv
+        // the counter moves by at most one per store: this is what makes "it never reaches 2^64-1" (cas_room,
+        // assumed at every entry) a physical fact rather than a hope
+        old(self).cas_id.val() <= final(self).cas_id.val() <= old(self).cas_id.val() + 1, // @ob C02 store.set.counter_moves_by_at_most_one
         post_set(old(self).memory@, old(self).cas_id.val(), old(self).timer.now(), key@, record.value@, record.header.flags, record.header.time_to_live, record.header.cas,
                  r is Ok, r is Err && r->Err_0 == CacheError::KeyExists, r is Err && r->Err_0 == CacheError::NotFound, if r is Ok { r->Ok_0.cas } else { 0 }, final(self).memory@, final(self).cas_id.val()), // @ob C01,C02,C05 store.set.post_set
 //@endfn
@@ -223,6 +227,7 @@ pub mod store {
     use super::*;
     // R7: the `use ... as ...` lines of memcache/store.rs
     use super::{CacheMetaData as CacheMeta, KeyType as CacheKeyType, Record as CacheRecord, SetStatus as CacheSetStatus};
+//@consts memcache/store.rs | -
 //@items memcache/store.rs | type Record, type Meta, type SetStatus, type KeyType, struct DeltaParam, type IncrementParam, type DecrementParam, type DeltaResultValueType, struct DeltaResult
 
 //@fields memcache/store.rs | struct MemcStore | store
@@ -367,13 +372,14 @@ pub mod store {
             post_delta(false, old(self).store.memory@, mc_cas(*old(self)), mc_now(*old(self)), key@, decrement.delta, decrement.value, header, dr_ok(r), dr_err(r), dr_cas(r), dr_val(r), final(self).store.memory@, mc_cas(*final(self))), // @ob C07,C05,C02 memc.decrement.post_delta
 //@endfn
 
-        // add_delta: closures capturing `&mut` state - outside Verus; its contract is ASSUMED here and checked by the Kani harnesses memc_add_delta_*
-//@fn memcache/store.rs | impl MemcStore | add_delta | ret=r | mutself | safety=C10 | assumed=kani:memc_add_delta
+        // add_delta: its Result adapter chains are desugared mechanically into matches (R12), three std calls on
+        // primitives are redirected to stand-ins (R12b); the body is then verified like any other.
+//@fn memcache/store.rs | impl MemcStore | add_delta | ret=r | mutself | safety=C10,C07 | chainrw | resub=([A-Za-z_][A-Za-z0-9_]*)\s*\.parse::<u64>\(\)=>parse_u64(\1) | resub=([A-Za-z_][A-Za-z0-9_.]*)\.to_string\(\)=>u64_to_string(\1)
         requires
             mc_inv(*old(self)), mc_room(*old(self)),
         ensures
-            mc_frame(*old(self), *final(self)),
-            post_delta(increment, old(self).store.memory@, mc_cas(*old(self)), mc_now(*old(self)), key@, delta.delta, delta.value, header, dr_ok(r), dr_err(r), dr_cas(r), dr_val(r), final(self).store.memory@, mc_cas(*final(self))),
+            mc_frame(*old(self), *final(self)), // @ob C07 memc.add_delta.frame
+            post_delta(increment, old(self).store.memory@, mc_cas(*old(self)), mc_now(*old(self)), key@, delta.delta, delta.value, header, dr_ok(r), dr_err(r), dr_cas(r), dr_val(r), final(self).store.memory@, mc_cas(*final(self))), // @ob C07,C05,C02,C10 memc.add_delta.post_delta
 //@endfn
 
 //@fn memcache/store.rs | impl MemcStore | delete | ret=r | mutself | safety=C10,C08
@@ -469,7 +475,7 @@ pub mod handler {
     use super::*;
     use super::binary_codec::storage_error_to_response;
 
-//@items memcache_server/handler.rs | const EXTRAS_LENGTH
+//@consts memcache_server/handler.rs | -
 
 //@fn memcache_server/handler.rs | - | into_record_meta | ret=r | safety=C10
         ensures
@@ -617,6 +623,7 @@ pub mod binary_connection {
     use vstd::prelude::*;
     use super::*;
     use super::cmp;
+//@consts protocol/binary_connection.rs | -
 //@items protocol/binary_connection.rs | struct MemcacheBinaryConnection
 
     pub open spec fn stream_of(c: MemcacheBinaryConnection) -> Seq<u8> { canon_p(c.codec, c.buffer@) + c.stream.wire() }
@@ -721,6 +728,7 @@ pub mod client_handler {
     use super::handler;
     use super::store as storage;
     use core::result::Result;
+//@consts memcache_server/client_handler.rs | -
 //@items memcache_server/client_handler.rs | struct ClientConfig
 
 //@fields memcache_server/client_handler.rs | struct Client | stream,addr,config,handler,limit_connections
